@@ -16,9 +16,14 @@
     source value as ISO 8601 text, reads the target cell raw and parses it, so a change of the text
     layout (the driver's) is no difference and a change of the instant is one.
 
-    [PathCase]: injectSuffixIntoPath recomputed by the harness with Go's package path (Split, Ext,
-    Join) + fmt.Sprintf on arbitrary paths over the safe alphabet (also unclean ones: "a//b/../x.y")
-    against [inject]. *)
+    [PathCase]: injectSuffixIntoPath recomputed by the harness with Go's packages strings (ReplaceAll), path
+    (Split, Ext, Join) + fmt.Sprintf on arbitrary paths (also unclean ones: "a//b/../x.y"; with '%', "%v", "%%",
+    "%20", glob metacharacters) against [inject].
+
+    [FmtCase]: Go's fmt.Sprintf(format, id) on arbitrary formats over plain characters, '%', "%%", "%v" and verbs that
+    do not exist ("%_", "%/", "%k"): where the model [sprintf_v] gives a text, Go gives the same text; where the model
+    says "outside" ([None]), Go's output carries an error marker "%!" ([marker]) -- on this alphabet (no flags, widths or
+    other valid verbs) the domain of the model is exactly the set of formats Go prints without complaint. *)
 From Coq Require Import ZArith NArith List Bool String Ascii.
 From Texel Require Import Prelude.Corr.
 From Texel Require Export Gpkg.Model Cli.Model Cli.Ref.
@@ -64,7 +69,8 @@ Inductive case :=
 | RunCase (k_target : string) (k_ids : list Z) (k_flags : flags) (k_cfg : snapcfg) (k_tms_ok : bool)
           (k_src : option (list (table * list rfeat))) (k_pre : list prefile)
           (k_exit_ok : bool) (k_files : list ofile)
-| PathCase (p : string) (id : Z) (r : string).
+| PathCase (p : string) (id : Z) (r : string)
+| FmtCase (f : string) (id : Z) (r : string) (marker : bool).
 
 Definition table_rows_ok (d : db) (o : string * list row) : bool :=
   match find_tab (fst o) (db_tabs d) with
@@ -89,6 +95,8 @@ Definition check (c : case) : bool :=
   match c with
   | PathCase p id r =>
       match inject (s_ p) id with Some x => str_eqb x (s_ r) | None => false end
+  | FmtCase f id r marker =>
+      match sprintf_v (s_ f) id with Some x => str_eqb x (s_ r) && negb marker | None => marker end
   | RunCase tgt ids fl cfg tms_ok src pre exit_ok files =>
       match build_fs pre with
       | None => false
